@@ -38,16 +38,31 @@ MsgsMeta ==
   \cup { Mk(pr, "own", "absent", "none", "R", "v1") : pr \in {"none", "push", "big"} }
   \cup { Mk("few", "own", "absent", "none", k, mt) : k \in {"absent", "F", "garbage"}, mt \in {"absent", "v2"} }
 
+\* two connections x the hostile classes (thorough tier)
+MsgsMix == { Base,
+             Mk("big", "fsuf", "byF", "big", "F", "v2"),
+             Mk("big", "big", "forged", "fsuf", "garbage", "absent"),
+             Mk("push", "big", "pidF", "big", "F", "v2"),
+             Mk("none", "none", "badsig", "big", "absent", "absent"),
+             Mk("few", "own", "validR", "big", "R", "v1"),
+             Mk("few", "own", "validR", "fsuf", "F", "v1"),
+             Mk("few", "fsuf", "othertype", "own", "R", "v1"),
+             Mk("few", "own", "domain", "own", "garbage", "v1"),
+             Mk("big", "own", "absent", "none", "R", "v1") }
+
 \* one message: liveness
 MsgsOne == { Base }
 
 MCMsgs == CASE MsgSet = "addr" -> MsgsAddr
             [] MsgSet = "all"  -> MsgsAll
             [] MsgSet = "meta" -> MsgsMeta
+            [] MsgSet = "mix"  -> MsgsMix
             [] MsgSet = "one"  -> MsgsOne
 
-\* JSON-able projection of the VIEW'd state
-St == [a |-> addr, p |-> protos, k |-> key, m |-> meta, cs |-> cs, ntf |-> ntf, ent |-> ent, idf |-> idf]
+\* JSON-able projection of the VIEW'd state, compact (every printed edge carries two of them):
+\* [R, F |-> <<ttl, mode, set, n, must, protocols, key, metadata>>, c |-> [conn |-> <<cs, ntf, ent, idf>>]]
+PSt(q) == <<addr[q].ttl, addr[q].mode, addr[q].set, addr[q].n, addr[q].must, protos[q], key[q], meta[q]>>
+St == [R |-> PSt("R"), F |-> PSt("F"), c |-> [c \in Conns |-> <<cs[c], ntf[c], ent[c], idf[c]>>]]
 EmitEdge == PrintT(<<"VFEDGE", ToJson([s |-> St, op |-> op', t |-> St'])>>)
 Conf == [conns |-> Conns, rclass |-> MCRClass, msgset |-> MsgSet, nmsgs |-> Cardinality(MCMsgs),
          maxProtos |-> MaxProtos, maxAddrs |-> MaxAddrs, recentMax |-> RecentMax,
